@@ -74,6 +74,16 @@ package extensions
 //@ modifies z
 //@ end
 
+// E2.Div: z·y = x·(N(y)·inv(N(y))), i.e. z = x/y whenever the norm of y is invertible (z = 0 when y = 0).
+// Proved from the contracts of Inverse, Mul and Set (their bodies are not re-executed).
+//@ func E2.Div
+//@ layer ring koalabear.Element
+//@ option distribute
+//@ ensures[quotient] qmul(3, vec(z), old(vec(y))) == vscale(qnorm(3, old(vec(y))) * inv(qnorm(3, old(vec(y)))), old(vec(x)))
+//@ ensures[result] result == z
+//@ modifies z
+//@ end
+
 //@ func E2.Inverse
 //@ layer ring koalabear.Element
 //@ option distribute
@@ -150,6 +160,16 @@ package extensions
 //@ func E4.MulByNonResidue
 //@ layer ring E2
 //@ ensures[value] vec(z) == qmul(NR_E2, svec(2, 1, 1), old(vec(x)))
+//@ ensures[result] result == z
+//@ modifies z
+//@ end
+
+// E4.Div: z·y = x·(N(y)·inv(N(y))), i.e. z = x/y whenever the norm of y is invertible (z = 0 when y = 0).
+// Proved from the contracts of Inverse, Mul and Set (their bodies are not re-executed).
+//@ func E4.Div
+//@ layer ring E2
+//@ option distribute
+//@ ensures[quotient] qmul(NR_E2, vec(z), old(vec(y))) == vscale(qnorm(NR_E2, old(vec(y))) * inv(qnorm(NR_E2, old(vec(y)))), old(vec(x)))
 //@ ensures[result] result == z
 //@ modifies z
 //@ end
